@@ -51,7 +51,7 @@ def layout(chk, thorough):
     pb._fill_exponents(3, 7, clmo_fake, o)
     goal2 = z3.And(*[o[i].z == dec[i].z for i in range(6)])
     v, m = ex.check(rng_ok + [z3.Not(goal2)], ())
-    (chk.ok if v == 'unsat' else (lambda oo, dd: chk.fail(oo, dd, None)))('C06/layout(1)/_fill_exponents = _decode_multiindex', 'QF_BV equivalence of the two decoders')
+    (chk.ok if v == 'unsat' else (lambda oo, dd: chk.fail(oo, dd, _replay_fill(m, k) if m is not None else None)))('C06/layout(1)/_fill_exponents = _decode_multiindex', 'QF_BV equivalence of the two decoders')
     # (2) injectivity on {k >= 0, sum k = d <= 30}
     k2 = [BV.var('j%d' % i) for i in range(6)]
     packed2 = pb._pack_multiindex(k2)
@@ -120,6 +120,20 @@ _verdict(bool(bad), first=bad[:3])
             worst = max(worst, res * (n - i + 1))
             res = res * (n - i + 1) // i
     (chk.ok if worst < 2 ** 63 else (lambda oo, dd: chk.fail(oo, dd, None)))('C06/layout(3)/_combinations has no int64 overflow for d <= 30', 'largest intermediate %d' % worst, nontrivial=False)
+
+
+def _replay_fill(m, k):
+    vals = [m.eval(x.z, model_completion=True).as_signed_long() for x in k]
+    return '''
+from hiten.algorithms.polynomial.base import _pack_multiindex, _fill_exponents
+from numba.typed import List
+k = np.array(%r, dtype=np.int64)
+packed = _pack_multiindex(k)
+l = List(); l.append(np.array([packed], dtype=np.uint32))
+out = np.zeros(6, dtype=np.int64)
+_fill_exponents(0, 0, l, out)
+_verdict(tuple(int(x) for x in out[1:]) != tuple(int(x) for x in k[1:]), k=k.tolist(), filled=[int(x) for x in out])
+''' % (vals,)
 
 
 def _replay_pack(m, k):
